@@ -12,11 +12,20 @@ use std::collections::HashMap;
 use std::sync::{Arc, Condvar, Mutex};
 use std::time::{Duration, Instant};
 
-#[derive(Clone, Debug, PartialEq, Eq, Hash)]
+#[derive(Clone, Debug, Eq, Hash)]
 pub struct Key {
     pub site: &'static str,
     pub a: u64,
     pub b: u64,
+}
+
+/// wildcard for `a` / `b`
+pub const ANY: u64 = u64::MAX;
+
+impl PartialEq for Key {
+    fn eq(&self, o: &Key) -> bool {
+        self.site == o.site && (self.a == o.a || self.a == ANY || o.a == ANY) && (self.b == o.b || self.b == ANY || o.b == ANY)
+    }
 }
 
 #[derive(Clone, Debug)]
